@@ -58,6 +58,8 @@ def check_map(rec, B, mg, mp, gs, ps, rng, full_list=True, unitary=True, tag="")
     """apply the real map object to the list (gs,ps) and compare with the oracle; structural clauses."""
     N = len(mg) // 2
     M = B.Map(mg.copy(), mp.copy())
+    if B.name == "np" and rng.integers(3) == 0:
+        B.freeze(M)         # the map is only read
     ident = np.array_equal(mg, np.eye(2 * N, dtype=np.int64)) and not mp.any()
     case = {"map": [O.show(g, p) for g, p in zip(mg, mp)], "L": len(gs), "first": [O.show(g, p) for g, p in zip(gs[:4], ps[:4])]}
     nt = not ident
@@ -184,6 +186,28 @@ def _rotmap_vs_rot(rec, B, G, PG, gs, ps):
                   case, bool(G.any()))
 
 
+def _rotmap_string_history(rec, B, G, PG, rng):
+    """the rotation map asked for by the generator's spelling, the returned map edited in place by its owner, the same spelling asked
+    again (and through a gate): the second answer is the rotation again."""
+    txt = ('-' if PG == 2 else '') + O.g2s(G)
+    N = len(G) // 2
+    xg, xp = O.map_of_rotation(G, PG)
+    ok, M1 = rec.attempt("rotmap.string", txt, lambda: B.stabilizer.clifford_rotation_map(txt))
+    if not ok:
+        return
+    mg, mp = B.gsps(M1)
+    rec.check("rotmap.string", np.array_equal(mg, xg) and np.array_equal(mp, xp % 4), txt, True)
+    H_ = gen.rand_nonid(rng, N)
+    ok, _ = rec.attempt("rotmap.string", txt, lambda: M1.rotate_by(B.Pauli(H_, 2 * int(rng.integers(2)))))
+    if rng.integers(2):
+        M1.ps[:] = (M1.ps + 2) % 4
+    ok, M2 = rec.attempt("rotmap.string", txt, lambda: B.stabilizer.clifford_rotation_map(txt))
+    if ok:
+        mg, mp = B.gsps(M2)
+        rec.check("rotmap.string.again", np.array_equal(mg, xg) and np.array_equal(mp, xp % 4), [txt, "after the first answer was edited in place"], True,
+                  expected=[O.show(a, b) for a, b in zip(xg, xp)], observed=[O.show(a, b) for a, b in zip(mg, mp)])
+
+
 def _lib_mask(B, qubits, N):
     m = np.zeros(N, dtype=bool)
     m[list(qubits)] = True
@@ -274,6 +298,53 @@ def run_masks(shard, rec, B):
                 rec.check("img.mask.state", np.array_equal(lg, xg) and np.array_equal(lp, xp) and lr == r, case, True)
 
 
+def structured_map(rng, N):
+    """maps with special structure that a generic sampler practically never draws: wire permutations (cycles of every length)
+    with signs, CNOT networks (X-type rows stay X-type), diagonal maps (products of S and CZ), Hadamard layers, and their products."""
+    kind = int(rng.integers(5))
+    gs, ps = O.map_identity(N)
+    if kind in (0, 4):
+        perm = rng.permutation(N)
+        if N >= 3 and rng.integers(2):      # one long cycle
+            perm = np.roll(np.arange(N), 1)[rng.permutation(N)] if False else np.roll(np.arange(N), int(rng.integers(1, N)))
+        gs = np.zeros((2 * N, 2 * N), dtype=np.int64)
+        for k in range(N):
+            gs[2 * k, 2 * perm[k]] = 1
+            gs[2 * k + 1, 2 * perm[k] + 1] = 1
+        ps = 2 * rng.integers(0, 2, 2 * N)
+        if kind == 0:
+            return gs, ps
+    if kind in (1, 4):
+        for _ in range(int(rng.integers(1, 2 * N + 1))):
+            if N < 2:
+                break
+            c, t = rng.choice(N, 2, replace=False)
+            cn, cp = O.map_identity(N)
+            cn[2 * c, 2 * t] = 1
+            cn[2 * t + 1, 2 * c + 1] = 1
+            gs, ps = O.map_compose(gs, ps, cn, cp)
+        return gs, ps % 4
+    if kind == 2:
+        for q in range(N):
+            if rng.integers(2):     # S on q: X -> Y
+                sg, sp = O.map_identity(N)
+                sg[2 * q, 2 * q + 1] = 1
+                gs, ps = O.map_compose(gs, ps, sg, sp)
+        for _ in range(int(rng.integers(0, N + 1))):
+            if N < 2:
+                break
+            a, b = rng.choice(N, 2, replace=False)   # CZ: X_a -> X_a Z_b, X_b -> Z_a X_b
+            cg, cp = O.map_identity(N)
+            cg[2 * a, 2 * b + 1] = 1
+            cg[2 * b, 2 * a + 1] = 1
+            gs, ps = O.map_compose(gs, ps, cg, cp)
+        return gs, ps % 4
+    for q in range(N):                # Hadamard layer on a subset
+        if rng.integers(2):
+            gs[[2 * q, 2 * q + 1]] = gs[[2 * q + 1, 2 * q]]
+    return gs, ps
+
+
 def run_rand(shard, rec, B):
     rng = gen.rng_for(rec)
     Ns = [3, 4, 5, 6, 7, 8] if B.name == "np" else [3, 4, 5]
@@ -292,6 +363,12 @@ def run_rand(shard, rec, B):
     for t in range(shard["n"]):
         N = Ns[t % len(Ns)]
         mg, mp = O.random_map(rng, N)
+        if t % 3 == 1:
+            mg, mp = structured_map(rng, N)
+            if not O.map_valid(mg, mp):
+                rec.inconclusive("structured map invalid")
+                continue
+            rec.bump("structured_maps")
         L = int(rng.integers(2, 24))
         gs = np.concatenate([gen.rand_list(rng, L, N), np.eye(2 * N, dtype=np.int64)[rng.integers(0, 2 * N, 2)]])
         ps = rng.integers(0, 4, len(gs))
@@ -299,6 +376,7 @@ def run_rand(shard, rec, B):
         if t % 5 == 0:
             G = gen.rand_nonid(rng, N)
             _rotmap_vs_rot(rec, B, G, 2 * int(rng.integers(2)), gs, ps)
+            _rotmap_string_history(rec, B, G if t % 10 else O.s2g("XZ" + "I" * (N - 2)) if N >= 2 else G, 2 * int(rng.integers(2)), rng)
         # state receiver: all rows transformed, r kept, rho' = V rho V^dag
         if t % 4 == 0 and N <= 5:
             tg, tp, r = O.random_tableau(rng, N)
